@@ -6,7 +6,7 @@
    it runs out).  `bytes c` = every element is in [0,256).  `returns r` = r is neither Panic nor the
    fuel error: the call comes back with a value or an ordinary error.  All statements are for ALL
    byte strings (and all offsets / group numbers). *)
-From XMT Require Import Base.Prelude Model.Cfg Proofs.Cfg.
+From XMT Require Import Base.Prelude Model.Cfg Proofs.Cfg Proofs.CfgRegress.
 
 (* the stride is computed for every offset inside the config ... *)
 Theorem C09_next_total : forall c i, bytes c -> 0 <= i < len c -> exists n, next c i = Ok n.
@@ -62,6 +62,18 @@ Print Assumptions C09_marshal_no_panic.
 Theorem C09_validate_iff_build_bytes : forall c, bytes c -> (validate c = Ok tt <-> exists r, build true c = Ok r).
 Proof. exact validate_iff_build. Qed.
 Print Assumptions C09_validate_iff_build_bytes.
+
+(* regressions: the no-panic statements were FALSE for the expressions of the pinned tree (copies of the
+   old definitions in Proofs/CfgRegress.v); each was repaired by its own fix: commit *)
+Theorem C09_old_host_refuted : exists c, bytes_ok c = true /\ old_host c 0 (len c) = Panic.
+Proof. exact old_host_refuted. Qed.
+Print Assumptions C09_old_host_refuted.
+Theorem C09_old_wc2_walk_refuted : exists c, bytes_ok c = true /\ old_wc2_walk c 1 8 = Panic.
+Proof. exact old_wc2_walk_refuted. Qed.
+Print Assumptions C09_old_wc2_walk_refuted.
+Theorem C09_old_selpct_refuted : old_validate_selpct 2 0 = Ok tt /\ build true [168; 5] = Err EInvalid.
+Proof. exact old_selpct_refuted. Qed.
+Print Assumptions C09_old_selpct_refuted.
 
 (* non-vacuity: the three inputs that crashed / diverged on the pinned tree are byte strings, and the
    (repaired) model returns on them; a valid config validates and builds *)
